@@ -8,6 +8,7 @@ CONSTANTS
   Roles = {"server", "client"}
   Modes = {"receptor", "dns", "dns_noname"}
   StreamSrcs <- StreamSrcsFull
+  KF_DigestCachedAcrossCalls = FALSE
   KF_ColonSplit = FALSE
   DumpFile = "vectors.ndjson"
 INVARIANTS
@@ -20,3 +21,5 @@ INVARIANTS
   PinsOnlyRestrict
   StreamBindsSource
   StreamCodeIsProp
+  HistoryIndependent
+  PinnedThenUnpinnedRefused
